@@ -170,7 +170,7 @@ def construct_case(j, e, rng):
         variants += [(mag, v, [np.asarray(a, dtype=object) for a in items]) for mag, v, items in base_variants[::2]]
     for mag, v, items in variants:
         arg = items[0] if form == "bare" else (list(items) if form == "list" else tuple(items))
-        if form == "array":
+        if form in ("array", "stack"):
             arg = np.array(items)
         f32 = any(np.asarray(a).dtype == np.float32 for a in items)
         if any(np.asarray(a).dtype == object for a in items):
@@ -189,6 +189,22 @@ def construct_case(j, e, rng):
             j.skip("perturbation inside the 1e-12..1e-7 don't-care band")
             j.count("dontcare_" + ("rejected" if raised else "accepted"))
             continue
+        if form == "stack":
+            # not a documented form (an ndarray may be read as something else, e.g. a vector of angles by SO2): refused,
+            # or an object that holds members of its class only - never None, never a non-member
+            if raised is not None:
+                j.ok(cid)
+                j.count("stack_form_refused")
+            else:
+                bad_el = [a for a in obj.data if a is None or not isinstance(a, np.ndarray) or a.shape != np.asarray(mem[0]).shape
+                          or residual(cls, a) > 1e-9]
+                if bad_el:
+                    mode = "holds-None" if any(a is None for a in obj.data) else "holds-non-member"
+                    j.fail("%s|%s|%s|%s" % (PID, site, feat, mode), detail, cid)
+                else:
+                    j.ok(cid)
+                    j.count("stack_form_taken")
+            continue
         if expect == "reject":
             if raised is None:
                 worst = max([residual(cls, a) for a in obj.data] + [0.0])
@@ -196,8 +212,11 @@ def construct_case(j, e, rng):
                 j.fail("%s|%s|%s|%s" % (PID, site, feat, mode), dict(detail, residual=worst), cid)
             else:
                 j.ok(cid)
-        elif expect == "accept":
-            if raised is not None:
+        elif expect in ("accept", "accept-or-reject"):
+            if raised is not None and expect == "accept-or-reject":
+                j.ok(cid)
+                j.count("stack_form_refused")
+            elif raised is not None:
                 j.fail("%s|%s|%s|rejected-valid-%s" % (PID, site, feat, raised), detail, cid)
             else:
                 if spec_cls == "SE3.SO3(R)":        # stored as the 4x4 matrix with that rotation block
